@@ -177,8 +177,265 @@ def main_c22(run):
                                    "what a Python literal is"], extra={"exhaustive": True})
 
 
+# ---------------------------------------------------------------- C23
+STR_ALPHA = ["\"", "\\", "a", "n", "x", "0", "1", "8", "N", "{", "}", "\r", "\n", "é", "u", " ", "'"]
+PREFIXES = ["", "r", "b", "br", "rb"]
+BR_ALPHA = ["[", "]", "a", "\n", "\r", "d", "=", "\""]
+
+
+def python_literal(prefix, body):
+    """Value of the equivalent Python literal, or ('error', msg).  Unrecognised escapes are
+    warnings in Python: reported as ('badescape',)."""
+    import warnings
+    src_body = body.replace("\r\n", "\n").replace("\r", "\n")
+    for q in ('"""', "\'\'\'"):
+        if q in src_body or src_body.endswith(q[0]):
+            continue
+        src = prefix + q + src_body + q
+        break
+    else:
+        return ("skip",)
+    with warnings.catch_warnings():
+        warnings.simplefilter("error")
+        try:
+            return ("ok", ast.literal_eval(src))
+        except SyntaxWarning:
+            return ("badescape",)
+        except DeprecationWarning:
+            return ("badescape",)
+        except SyntaxError as e:
+            if "invalid escape" in str(e):
+                return ("badescape",)
+            return ("error", str(e))
+        except ValueError as e:
+            return ("error", str(e))
+
+
+def main_c23(run):
+    from .reader import enum_bind, read_models
+    from ..readerlib import decode_body
+    rng = random.Random(run.seed)
+    q = run.quick
+    L = 2 if q else 4
+    total = 0
+    for pre in PREFIXES:
+        rows, real = enum_bind(run, L + 1, STR_ALPHA, list(pre) + ["\""], f"str-{pre or 'plain'}")
+        for t, row in rows.items():
+            st, val = real[t]
+            body = None
+            if t.endswith("\"") and len(t) > len(pre) + 1:
+                body = t[len(pre) + 1:-1]
+            run.case(t, nontrivial=body is not None)
+            total += 1
+            spec = row["st"]
+            if st.startswith("other"):
+                run.violation("str:" + t, f"reading {t!r} raised {st}", {"text": t})
+                continue
+            if spec == "ok" or spec == "unk":
+                # complete literal: the reference is the equivalent Python literal
+                if spec == "ok" and (len(row["ch"]) != 1 or row["ch"][0]["t"] not in ("str", "bytes")):
+                    continue      # closing quote came early; the rest is other forms (e.g. "a"a)
+                if spec == "ok":
+                    sb = "".join(row["ch"][0]["v"])
+                    py = python_literal(pre, sb)
+                else:
+                    if body is None:
+                        continue
+                    py = python_literal(pre, body)
+                if py[0] == "skip":
+                    continue
+                if py[0] == "ok":
+                    if st != "ok" or len(val) != 1:
+                        run.violation("str:" + t, f"{t!r}: Python reads the equivalent literal as {py[1]!r}, Hy: {st}",
+                                      {"text": t})
+                        continue
+                    got = val[0]["v"][1]
+                    want = py[1].decode("latin-1") if isinstance(py[1], bytes) else py[1]
+                    if got != want or (val[0]["t"] == "bytes") != isinstance(py[1], bytes):
+                        run.violation("str:" + t, f"{t!r} reads as {got!r}, the Python literal is {want!r}", {"text": t})
+                    else:
+                        run.cov["traces_validated_against_impl"] += 1
+                elif py[0] == "badescape" or py[0] == "error":
+                    if spec == "ok" and py[0] == "error":
+                        raise MachineryError(f"spec accepts {t!r} but Python rejects the literal: {py[1]}")
+                    if st == "ok":
+                        run.violation("str:" + t, f"{t!r} has an escape Python does not recognise ({py}) but Hy reads it",
+                                      {"text": t})
+                    else:
+                        run.cov["traces_validated_against_impl"] += 1
+            elif spec == "lex":
+                if st != "lex":
+                    run.violation("str:" + t, f"{t!r}: unrecognised escape / bad literal must be a LexException, got {st}",
+                                  {"text": t})
+                else:
+                    run.cov["traces_validated_against_impl"] += 1
+    # longer bodies (numeric / named escapes, line continuations): spec verdict via TLC's file mode
+    from .reader import file_validate
+    pieces = ["\\x41", "\\x4", "\\xg1", "\\101", "\\18", "\\0", "\\N{DASH}", "\\N{dash}", "\\N{NOPE}", "\\N{",
+              "\\u00e9", "\\u00e", "\\U0001F600", "\\U00110000", "\\\n", "\\\r\n", "é", "\\'", "\\\"", "\\\\", "{", "}",
+              "a", " ", "\n", "\r", "\r\n", "\\a\\b\\f\\n\\r\\t\\v", "\\q", "\\z", "\\8", "\\N", "\\u", "\\U", "\\x"]
+    texts = []
+    for pre in PREFIXES:
+        for a in pieces:
+            texts.append(pre + '"' + a + '"')
+        for _ in range(150 if q else 5000):
+            texts.append(pre + '"' + "".join(rng.choice(pieces) for _ in range(rng.randint(2, 4))) + '"')
+    recs, acc, unk, says = file_validate(run, texts, "longer")
+    for i, rc in enumerate(recs, 1):
+        t = "".join(rc["text"])
+        pre = t[:t.index('"')]
+        body = t[len(pre) + 1:-1]
+        spec = says[i]["st"]
+        run.case(t)
+        if spec == "ok" and not (len(says[i]["ch"]) == 1 and says[i]["ch"][0]["ix"] == [1, len(t)]):
+            continue        # an unescaped quote inside: several forms, not one literal
+        if spec == "eof":
+            continue
+        py = python_literal(pre, body)
+        st, val = rc["_real"], rc["_models"]
+        if py[0] == "skip":
+            continue
+        if py[0] == "ok":
+            if spec == "lex":
+                raise MachineryError(f"spec rejects {t!r} but Python reads the literal as {py[1]!r}")
+            want = py[1].decode("latin-1") if isinstance(py[1], bytes) else py[1]
+            if st != "ok" or len(val) != 1 or val[0]["v"][1] != want:
+                run.violation("str:" + t, f"{t!r}: the Python literal is {want!r}, Hy gives {st} "
+                              f"{val[0]['v'][1] if st == 'ok' and val else ''!r}", {"text": t})
+            else:
+                run.cov["traces_validated_against_impl"] += 1
+        else:
+            if spec == "ok":
+                raise MachineryError(f"spec accepts {t!r} but Python says {py}")
+            if st != "lex":
+                run.violation("str:" + t, f"{t!r}: not a valid Python literal ({py[0]}) but Hy gives {st}", {"text": t})
+            else:
+                run.cov["traces_validated_against_impl"] += 1
+    run.cov["longer_literals"] = len(texts)
+    # bracket strings
+    rows, real = enum_bind(run, 5 if q else 6, BR_ALPHA, ["#", "["], "bracket")
+    nbr = 0
+    for t, row in rows.items():
+        st, val = real[t]
+        run.case(t, nontrivial=row["st"] == "ok")
+        if row["st"] != "ok" or len(row["ch"]) != 1 or row["ch"][0]["t"] != "str" or row["ch"][0]["ix"] != [1, len(t)]:
+            continue
+        nbr += 1
+        content = "".join(row["ch"][0]["v"]).replace("\r\n", "\n").replace("\r", "\n")
+        delim = "".join(row["ch"][0]["x"][1:])
+        # independent reading of the text: #[delim[ content ]delim] with one leading newline removed
+        inner = t[2 + len(delim) + 1: len(t) - len(delim) - 2]
+        for nl in ("\r\n", "\n", "\r"):
+            if inner.startswith(nl):
+                inner = inner[len(nl):]
+                break
+        verbatim = inner.replace("\r\n", "\n").replace("\r", "\n")
+        if verbatim != content:
+            raise MachineryError(f"spec content {content!r} differs from the verbatim content {verbatim!r} of {t!r}")
+        if st != "ok" or len(val) != 1 or val[0]["v"][1] != content or "".join(val[0]["x"][1:]) != delim:
+            run.violation("bracket:" + t, f"{t!r} should read as {content!r} (delimiter {delim!r}); got {st} "
+                          f"{val[0]['v'] if st == 'ok' and val else ''}", {"text": t})
+        else:
+            run.cov["traces_validated_against_impl"] += 1
+    run.cov["bracket_strings"] = nbr
+    run.sample({"text": 'b"\\x41\\n"', "python": repr(python_literal("b", "\\x41\\n"))})
+    run.sample({"text": "#[d[a]]d]", "content": "a]"})
+    return run.finish("model_checking",
+                      "every double-quoted literal with prefix '', r, b, br, rb and body <= %d characters over 17 body "
+                      "characters (quote, backslash, escape letters, digits, N{}, CR, LF, non-ASCII), and every bracket-string "
+                      "text <= %d characters, enumerated by TLC with the reader spec's verdict; value compared with the "
+                      "equivalent Python literal (CPython decides escapes and \\N / \\U cases), invalid escapes must be "
+                      "LexException, bracket content verbatim minus one leading newline" % (L, 5 if q else 6),
+                      assumptions=["CPython's literal evaluation (ast.literal_eval, warnings as errors) is the reference"],
+                      extra={"exhaustive": True})
+
+
+# ---------------------------------------------------------------- C26
+def main_c26(run):
+    import hy
+    from hy.models import Symbol, Keyword, String
+    from .reader import gather, read_models
+    rng = random.Random(run.seed)
+    q = run.quick
+    rows, real, dis = gather(run, q)
+    L = 3 if q else 4
+
+    def ctor_ok(f, *a, **k):
+        try:
+            f(*a, **k)
+            return True
+        except ValueError:
+            return False
+        except Exception as e:
+            return "raised " + type(e).__name__
+
+    def reads_as(text, t, v):
+        st, ms = real[text] if text in real else read_models(text)
+        return st == "ok" and len(ms) == 1 and ms[0]["t"] == t and "".join(ms[0]["v"]) == v
+
+    nsym = nkw = 0
+    for t, row in rows.items():
+        if not t or len(t) > L:
+            continue
+        # Symbol(t)  <=>  reading t yields exactly that symbol
+        want = reads_as(t, "sym", t)
+        got = ctor_ok(Symbol, t)
+        run.case(("sym", t), nontrivial=want)
+        nsym += 1
+        if got is not want:
+            run.violation("Symbol:" + t, f"Symbol({t!r}) {'succeeds' if got is True else 'fails' if got is False else got} "
+                          f"but reading {t!r} {'yields' if want else 'does not yield'} that symbol", {"text": t})
+        elif row["st"] != "unk":
+            spec = row["st"] == "ok" and len(row["ch"]) == 1 and row["ch"][0]["t"] == "sym" and "".join(row["ch"][0]["v"]) == t
+            if spec == want:
+                run.cov["traces_validated_against_impl"] += 1
+        # Keyword(t)  <=>  reading ":" + t yields exactly that keyword
+        kt = ":" + t
+        want = reads_as(kt, "kw", t)
+        got = ctor_ok(Keyword, t)
+        nkw += 1
+        run.case(("kw", t), nontrivial=want)
+        if got is not want:
+            run.violation("Keyword:" + t, f"Keyword({t!r}) {'succeeds' if got is True else 'fails' if got is False else got} "
+                          f"but reading {kt!r} {'yields' if want else 'does not yield'} that keyword", {"text": t})
+    # String(s, brackets=d)  <=>  #[d[s]d] reads back as s
+    import itertools
+    nbr = 0
+    balpha = ["]", "[", "a", "=", "\n", "\r", " ", "\""]
+    for d in ("", "a", "==", "f", "f-x"):
+        for n in range(0, 4 if q else 5):
+            for tup in itertools.product(balpha, repeat=n):
+                s_ = "".join(tup)
+                text = "#[" + d + "[" + s_ + "]" + d + "]"
+                st, ms = read_models(text)
+                want = st == "ok" and len(ms) == 1 and ms[0]["t"] == "str" and ms[0]["v"][1] == s_ \
+                    and "".join(ms[0]["x"][1:]) == d
+                if d.startswith("f"):
+                    continue       # f- delimiters make f-strings, not String models
+                got = ctor_ok(String, s_, brackets=d)
+                nbr += 1
+                run.case(("br", d, s_), nontrivial=want)
+                if got is not want:
+                    key = "String:leading-newline-or-CR" if (s_[:1] in "\r\n" or "\r" in s_) and got is True else \
+                        f"String:{d}:{s_}"
+                    run.violation(key, f"String({s_!r}, brackets={d!r}) "
+                                  f"{'succeeds' if got is True else 'fails' if got is False else got} but {text!r} "
+                                  f"{'reads' if want else 'does not read'} back as that string", {"text": text})
+    run.cov["symbol_cases"] = nsym
+    run.cov["keyword_cases"] = nkw
+    run.cov["bracket_cases"] = nbr
+    run.sample({"Symbol": "a.b", "constructor": str(ctor_ok(Symbol, "a.b")), "reads_as_symbol": reads_as("a.b", "sym", "a.b")})
+    run.sample({"String": "a]", "brackets": "", "text": "#[[a]]]"})
+    return run.finish("model_checking",
+                      "every string <= %d characters over the reader alphabet (delimiters, whitespace, digits, dots, quote "
+                      "characters) as Symbol(s) and Keyword(s), and every (delimiter, content <= %d) pair as a bracket "
+                      "String: constructor success compared with the real reader's result on the corresponding text, which "
+                      "is itself bound to the TLC-enumerated reader spec" % (L, 3 if q else 4),
+                      extra={"exhaustive": True})
+
+
 def main(run):
-    return {"C22": main_c22}[run.pid](run)
+    return {"C22": main_c22, "C23": main_c23, "C26": main_c26}[run.pid](run)
 
 
 def replay(run, path):
